@@ -78,6 +78,9 @@ func cmdVerify(args []string) {
 				fmt.Printf("    %-10s %s (%d instances, %dms, %s)\n", o.Status, o.Name, len(o.Instances), o.Ms, o.Backend)
 				if o.Status != "discharged" && o.FailIdx >= 0 && o.FailIdx < len(o.Instances) {
 					fmt.Printf("        %s\n", o.Instances[o.FailIdx].Detail)
+					if o.Status == "undecided" {
+						fmt.Printf("        solver: %s\n", truncate(strings.TrimSpace(o.Results[o.FailIdx].Output), 300))
+					}
 				}
 				bad += b2i(o.Status != "discharged")
 			}
